@@ -26,7 +26,7 @@ import (
 // collide with nested paths (a.b.c vs a["b.c"], a/b vs a.b, ...). Any cache or
 // comparison keyed by a joined path would confuse them.
 var collisionDatum = univ.IfaceMap(
-	"a", univ.IfaceMap("b.c", univ.Int(1), "b", univ.IfaceMap("c", univ.Int(2), "c/d", univ.Str("s")), "b/c", univ.Int(3), "b~c", univ.IfaceSlice(univ.Int(1))),
+	"a", univ.IfaceMap("b.c", univ.Int(1), "b", univ.IfaceMap("c", univ.Int(2), "c/d", univ.Str("s")), "b/c", univ.Int(3), "b~c", univ.IfaceSlice(univ.Int(1)), "b\x00c", univ.Int(5), "b c", univ.Int(6), "b,c", univ.Int(7), "b|c", univ.Int(8)),
 	"a/b", univ.IfaceMap("c", univ.Int(4)),
 	"x", univ.IfaceMap("y", univ.IfaceMap("z", univ.Str("deep")), "y/z", univ.Str("slash"), "y.z", univ.Str("dot"), "0", univ.IfaceSlice(univ.Str("deep"))),
 	"l", univ.IfaceSlice(univ.IfaceMap("k", univ.Int(1)), univ.IfaceMap("k", univ.Int(2))),
@@ -62,8 +62,10 @@ func collidingPath(parts []string, node *univ.Node, opt *refsem.Options) []strin
 				continue
 			}
 		}
-		if strings.Join(p.Path, ".") == strings.Join(parts, ".") || strings.Join(p.Path, "/") == strings.Join(parts, "/") {
-			return p.Path
+		for _, sep := range []string{".", "/", "\x00", " ", ",", "|", ""} {
+			if strings.Join(p.Path, sep) == strings.Join(parts, sep) {
+				return p.Path
+			}
 		}
 	}
 	return nil
